@@ -5,6 +5,7 @@ mod c03;
 mod c04;
 mod c05;
 mod c06;
+mod c07;
 mod c08;
 mod c09;
 mod c10;
@@ -19,13 +20,22 @@ mod mach;
 fn main() {
     mc::install_silent_hook();
     let id = std::env::args().nth(1).unwrap_or_default();
-    match id.as_str() {
+    let r = std::panic::catch_unwind(|| dispatch(&id));
+    if r.is_err() {
+        println!("MACHINERY-ERROR property={} the harness itself panicked (see stderr)", id);
+        std::process::exit(2);
+    }
+}
+
+fn dispatch(id: &str) {
+    match id {
         "C01" => c01::run(c01::Mode::C01),
         "C02" => c02::run(),
         "C03" => c03::run(),
         "C04" => c04::run(),
         "C05" => c05::run(),
         "C06" => c06::run(),
+        "C07" => c07::run(),
         "C08" => c08::run(),
         "C09" => c09::run(),
         "C10" => c10::run(),
